@@ -516,7 +516,14 @@ pub fn builtin_binary_get<E: Effect>(
                     let bit_offset = bit_offset as usize;
                     let num_bits = num_bits as usize;
 
-                    // Calculate which bytes we need to read
+                    // Calculate which bytes we need to read. The offset is checked first so
+                    // that the bit arithmetic below cannot overflow.
+                    if byte_offset > binary_data.len() {
+                        return Err(Error::InvalidArgument(format!(
+                            "Not enough bits: need {} bits starting at byte {} bit {}",
+                            num_bits, byte_offset, bit_offset
+                        )));
+                    }
                     let total_bit_start = byte_offset * 8 + bit_offset;
                     let total_bit_end = total_bit_start + num_bits;
                     let last_byte_needed = total_bit_end.div_ceil(8);
@@ -528,13 +535,13 @@ pub fn builtin_binary_get<E: Effect>(
                         )));
                     }
 
-                    // Read all bytes we need
-                    let mut value = 0u64;
+                    // Read all bytes we need (up to 9 for an unaligned 64-bit window, hence u128)
+                    let mut value = 0u128;
                     let bytes_to_read = last_byte_needed - byte_offset;
 
                     for i in 0..bytes_to_read {
                         value =
-                            (value << 8) | (binary_data.byte_at(byte_offset + i).unwrap() as u64);
+                            (value << 8) | (binary_data.byte_at(byte_offset + i).unwrap() as u128);
                     }
 
                     // Shift to align our bits to the right
@@ -544,12 +551,8 @@ pub fn builtin_binary_get<E: Effect>(
                     value >>= bits_after;
 
                     // Mask to keep only the bits we want
-                    let mask = if num_bits == 64 {
-                        u64::MAX
-                    } else {
-                        (1u64 << num_bits) - 1
-                    };
-                    value &= mask;
+                    let mask = (1u128 << num_bits) - 1;
+                    let value = (value & mask) as u64;
 
                     Ok(BuiltinResult::Value(Value::Integer(BigInt::from(value))))
                 }
@@ -619,7 +622,14 @@ pub fn builtin_binary_set<E: Effect>(
                     let num_bits = num_bits as usize;
                     let len = binary_data.len();
 
-                    // Calculate which bytes we need to modify
+                    // Calculate which bytes we need to modify. The offset is checked first so
+                    // that the bit arithmetic below cannot overflow.
+                    if byte_offset > len {
+                        return Err(Error::InvalidArgument(format!(
+                            "Not enough bits: need {} bits starting at byte {} bit {}",
+                            num_bits, byte_offset, bit_offset
+                        )));
+                    }
                     let total_bit_start = byte_offset * 8 + bit_offset;
                     let total_bit_end = total_bit_start + num_bits;
                     let last_byte_needed = total_bit_end.div_ceil(8);
@@ -660,21 +670,18 @@ pub fn builtin_binary_set<E: Effect>(
                     let bits_in_modified = bytes_to_modify * 8;
                     let bits_after = bits_in_modified - bit_offset - num_bits;
 
-                    // Shift value to correct position
-                    let shifted_value = value_u64 << bits_after;
+                    // Shift value to correct position (the window spans up to 9 bytes for an
+                    // unaligned 64-bit write, hence u128)
+                    let shifted_value = (value_u64 as u128) << bits_after;
 
                     // Create mask: all 1s except in our target bits
-                    let mask = if num_bits == 64 {
-                        0
-                    } else {
-                        let target_mask = ((1u64 << num_bits) - 1) << bits_after;
-                        !target_mask
-                    };
+                    let target_mask = ((1u128 << num_bits) - 1) << bits_after;
+                    let mask = !target_mask;
 
                     // Reconstruct the bytes
-                    let mut current_bytes = 0u64;
+                    let mut current_bytes = 0u128;
                     for &byte in &modified_bytes {
-                        current_bytes = (current_bytes << 8) | (byte as u64);
+                        current_bytes = (current_bytes << 8) | (byte as u128);
                     }
 
                     let new_bytes_value = (current_bytes & mask) | shifted_value;
